@@ -199,3 +199,65 @@ int cmd_kpk_table(const Args& a)
 }
 
 }  // namespace vh
+
+// ---------------------------------------------------------------- hash table (hashmap.h) against HashTable.tla
+// input lines: {"ops":[["insert",k,v],["probe",k,found,value,epoch],["clear"],["epoch",n],["hashfull",n],...]} : behaviours of the model with
+// Size = 4; model key k is mapped to the real key (k mod 4) + 1024 * (k div 4) so that model collisions are real collisions in
+// the 1024-slot instantiation of the engine's template
+namespace vh
+{
+int cmd_hashtable_replay(const Args& a)
+{
+    std::ifstream in(a.s("in"));
+    FILE* out = fopen(a.s("out", "/dev/stdout").c_str(), "w");
+    std::string line;
+    long n = 0, nops = 0, bad = 0;
+    auto realkey = [](long k) { return uint64_t((k % 4) + 1024 * (k / 4)); };
+    while (std::getline(in, line))
+    {
+        if (line.find("\"ops\"") == std::string::npos) continue;
+        n++;
+        engine::HashMap<uint64_t, long, 1024> t;
+        // walk the inner arrays
+        size_t i = line.find('[');
+        i = line.find('[', i + 1);
+        while (i != std::string::npos)
+        {
+            size_t e = line.find(']', i);
+            std::string item = line.substr(i, e - i + 1);
+            std::vector<std::string> strs = jarr_str(item);
+            std::vector<long> nums = jarr_int(item.substr(item.find('"', item.find('"') + 1) + 1));
+            if (strs.empty()) break;
+            const std::string& op = strs[0];
+            nops++;
+            if (op == "insert") t.insert(realkey(nums[0]), nums[1]);
+            else if (op == "clear") t.clear();
+            else if (op == "epoch") t.updateEpoch((uint32_t)nums[0]);
+            else if (op == "hashfull")
+            {
+                if (t.hashfull() != nums[0])
+                {
+                    bad++;
+                    fprintf(out, "{\"prop\":\"X\",\"kind\":\"hashfull\",\"detail\":{\"behaviour\":%s,\"expected\":%ld,\"got\":%d}}\n", jstr(line).c_str(), nums[0], t.hashfull());
+                }
+            }
+            else if (op == "probe")
+            {
+                bool found = false;
+                auto* ent = t.probe(realkey(nums[0]), found);
+                bool ok = (found ? 1 : 0) == nums[1] && (!found || (ent->value == nums[2] && (long)ent->epoch == nums[3]));
+                if (!ok)
+                {
+                    bad++;
+                    fprintf(out, "{\"prop\":\"X\",\"kind\":\"probe\",\"detail\":{\"behaviour\":%s,\"key\":%ld,\"expected\":[%ld,%ld,%ld],\"got\":[%d,%ld,%u]}}\n", jstr(line).c_str(),
+                            nums[0], nums[1], nums[2], nums[3], (int)found, found ? ent->value : 0L, found ? ent->epoch : 0u);
+                }
+            }
+            i = line.find('[', e);
+        }
+    }
+    fprintf(out, "{\"summary\":true,\"behaviours\":%ld,\"operations\":%ld,\"mismatches\":%ld}\n", n, nops, bad);
+    fclose(out);
+    return 0;
+}
+}  // namespace vh
